@@ -5,6 +5,8 @@ import (
 )
 
 func init() {
+	// copyCheck stores a self pointer through unsafe; it has no effect on the value semantics
+	intrinsicTable["(*strings.Builder).copyCheck"] = func(in *Interp, fn *ssa.Function, a []Value, s ssa.Instruction) (Value, bool) { return unit(), true }
 	// strings.Builder.String uses unsafe.String(unsafe.SliceData(buf), len(buf))
 	intrinsicTable["(*strings.Builder).String"] = func(in *Interp, fn *ssa.Function, a []Value, s ssa.Instruction) (Value, bool) {
 		p, ok := a[0].(Ptr)
